@@ -61,3 +61,17 @@ def _v31(repo, mod):
     c = repo.cls(DES, "_LocalRenamer")
     f = next(f for f in c.body if isinstance(f, ast.FunctionDef) and f.name == "leave_Attribute")
     return replace_node(mod, f, "def _unused_attribute(self):\n        return None")
+
+
+@variant("C24", "keep-tally-forgets-compound-blocks", SEED, "C24.functions", "parsed functions kept by a tally that misses ADMITTED_COMPOUND")
+def _v40(repo, mod):
+    fn = repo.func(SEED, "parse_seed_module")
+    keep = find_stmt(fn, lambda s: isinstance(s, ast.If) and "size()" in norm(s.test))
+    return replace_node(mod, keep.test, "sum(deserializer.deserialize_function(node).counts[d] for d in (Disposition.ADMITTED, Disposition.ADMITTED_IMPORT, Disposition.ADMITTED_UNRESOLVED_CALL)) > 0").replace("    CstStatementDeserializer,\n", "    CstStatementDeserializer,\n    Disposition,\n", 1)
+
+
+@variant("C24", "bare-expressions-other-than-calls-refused", DES, "C24.statements", "the parser drops expression statements that are not calls")
+def _v41(repo, mod):
+    fn = repo.func(DES, "CstStatementDeserializer._admit_small_statement")
+    arm = find_stmt(fn, lambda s: isinstance(s, ast.If) and norm(s.test) == "isinstance(small, cst.Expr)")
+    return insert_before(mod, arm.body[0], "if not isinstance(small.value, cst.Call):\n    return None")
